@@ -38,6 +38,7 @@ from odxmodel.emit import scratch_dir
 PROPERTY = "C11"
 LEVEL = "exploration"
 
+MODEL_VERSIONS = ("2.0.1", "2.1.0", "2.2.1", "2.3.0")  # besides 2.2.0
 MAXCAND = 4  # instances tried per (class, field, kind) until one keeps the database self-consistent
 SHIPPED = {"somersault": "examples/somersault.pdx", "somersault_modified": "examples/somersault_modified.pdx"}
 
@@ -201,6 +202,10 @@ def base_members(base: str, off: Sequence[str]) -> Dict[str, bytes]:
     if key not in _MEMBERS:
         if base == "ks":
             _MEMBERS[key] = E.members(off)
+        elif base.startswith("ks@"):  # the kitchen sink in another ODX model version
+            _MEMBERS[key] = E.members(off, base[3:])
+        elif base.startswith("mini@"):  # a small database the way ODX before 2.2 has it
+            _MEMBERS[key] = E.mini_members(base[5:])
         elif base == "ks-written":  # what write_pdx_file makes of the kitchen-sink database (index.xml first -> last, as in shipped archives)
             install_template_cache()
             _MEMBERS[key] = write_members(load_base("ks", off))
@@ -262,6 +267,8 @@ def site_kinds(s: R.Site) -> List[Tuple[str, Optional[str]]]:
             return [("any", "discriminator: " + why)]
     out: List[Tuple[str, Optional[str]]] = []
     kinds = R.kinds_of(s.value)
+    if type(s.value) is list:
+        kinds = kinds + interleave_kinds(s.value)
     if s.value is None and R.optional_arg(R.field_type(s.holder, s.attr)) is str:
         kinds = kinds + ["empty"]  # Optional[str]: absent -> present but empty
     for k in kinds:
@@ -283,6 +290,46 @@ def site_kinds(s: R.Site) -> List[Tuple[str, Optional[str]]]:
                 if f == s.field and c in owner_names:
                     why = "lexical domain: " + w
         out.append((k, why))
+    return out
+
+
+def element_kind(x: Any) -> str:
+    """Kinds of elements which the parser keeps in ONE list in document order (TABLE-ROW / TABLE-ROW-REF, DTC / DTC-REF,
+    DIAG-COMM / DIAG-COMM-REF, SD / SDG, simple / complex value, ...)."""
+    if R.is_link(x):
+        return "ref"
+    if R.is_dc(x):
+        return "SDG" if type(x).__name__ == "SpecialDataGroup" else "element"
+    return "list" if isinstance(x, list) else type(x).__name__
+
+
+def interleave_plan(lst: List[Any], pattern: str) -> Optional[List[Any]]:
+    """pattern over {a, b}: a = kind of the first element, b = the other kind; the first elements of each kind that the pattern
+    needs are put in front in that order, all other elements follow in their order. None if the list cannot supply the pattern."""
+    kinds = []
+    for x in lst:
+        if element_kind(x) not in kinds:
+            kinds.append(element_kind(x))
+    if len(kinds) != 2:
+        return None
+    pools = {"a": [x for x in lst if element_kind(x) == kinds[0]], "b": [x for x in lst if element_kind(x) == kinds[1]]}
+    if any(pattern.count(k) > len(pools[k]) for k in "ab"):
+        return None
+    it = {k: iter(pools[k]) for k in "ab"}
+    front = [next(it[k]) for k in pattern]
+    ids = {id(x) for x in front}
+    return front + [x for x in lst if id(x) not in ids]
+
+
+INTERLEAVINGS = ("aab", "aba", "baa", "abb", "bab", "bba")
+
+
+def interleave_kinds(lst: List[Any]) -> List[str]:
+    out = []
+    for pat in INTERLEAVINGS:
+        plan = interleave_plan(lst, pat)
+        if plan is not None and any(x is not y for x, y in zip(plan, lst)):
+            out.append("interleave-" + pat)
     return out
 
 
@@ -530,6 +577,12 @@ def apply_perturbation(db: Any, root: Any, s: R.Site, kind: str, path: Sequence[
     if kind == "empty":
         object.__setattr__(holder, attr, "")
         return "''"
+    if kind.startswith("interleave-"):
+        plan = interleave_plan(old, kind[len("interleave-"):])
+        if plan is None:
+            raise Skip("the list does not have two kinds of elements any more")
+        old[:] = plan
+        return "element kinds in the order " + " ".join(element_kind(x) for x in plan)
     if kind == "set":
         new = synth_value(db, root, s)
         if new is None:
@@ -807,6 +860,10 @@ def judge(db: Any, pert: Optional[Dict[str, Any]], with_behaviour_of_original: b
             ex.strict_mode = old_mode
     out.db1 = db1
     root1 = root_of(db1)
+    if str(db.model_version) != str(db1.model_version):
+        out.findings.append(("C11/Database.model_version/altered", f"MODEL-VERSION of the database is {db.model_version}, of the reloaded one {db1.model_version}"))
+    if db.short_name != db1.short_name:
+        out.findings.append(("C11/Database.short_name/altered", f"{db.short_name!r} -- loaded back {db1.short_name!r}"))
     diffs = R.diff(root, root1, ignore=ignore_field)
     for d in diffs:
         if pert is not None and is_derived(d.cls, d.field):
@@ -1126,6 +1183,37 @@ def perturb_unit(unit: Tuple[str, Tuple[str, ...], str, str, str]) -> Part:
     return part
 
 
+AUX_READS = ("all", "half", "one byte", "read and rewound")
+
+
+def aux_read_findings(base: str, off: Sequence[str], how: str) -> List[Tuple[str, str]]:
+    """Auxiliary files whose file object somebody has read (completely / partly / and rewound) BEFORE the first write."""
+    out: List[Tuple[str, str]] = []
+    dbx = load_base(base, off)
+    want = aux_contents(dbx)
+    codes0 = code_objects(dbx)
+    for name, f in dbx.auxiliary_files.items():
+        n = len(want[os.path.basename(str(name))])
+        f.seek(0)
+        f.read({"all": -1, "half": max(1, n // 2), "one byte": 1, "read and rewound": -1}[how])
+        if how == "read and rewound":
+            f.seek(0)
+    tag = f"[{base}] auxiliary file objects read ({how}) before write_pdx_file"
+    try:
+        mx = write_members(dbx)
+        got = aux_members(mx)
+        codes = code_objects(load_from_members(mx))
+    except Exception as e:
+        return [("C11/Database.auxiliary_files/crash", f"{tag}: {type(e).__name__}: {str(e)[:200]}")]
+    bad = [n for n in sorted(want) if got.get(n) != want[n]]
+    if bad:
+        out.append(("C11/Database.auxiliary_files/altered", f"{tag}: {bad[0]!r} is written with {len(got.get(bad[0], b''))} of {len(want[bad[0]])} bytes"))
+    for p, (cls, fn, code) in codes0.items():
+        if p in codes and codes[p][2] != code:
+            out.append((f"C11/{cls}.code/altered", f"{tag}: code of {fn!r} reloads as {R._short(codes[p][2])}"))
+    return out
+
+
 def baseline_unit(unit: Tuple[str, Tuple[str, ...]]) -> Part:
     base, off = unit
     part = Part()
@@ -1140,6 +1228,10 @@ def baseline_unit(unit: Tuple[str, Tuple[str, ...]]) -> Part:
     for key, detail in out.findings:
         part.violation(key, case, f"[{base}, unperturbed] {detail}")
     part.add("baseline_stage", (base, out.stage))
+    for how in AUX_READS:
+        part.count("evaluations")
+        for key, detail in aux_read_findings(base, off, how):
+            part.violation(key, dict(case, aux_read=how), detail)
     return part
 
 
@@ -1341,7 +1433,18 @@ def run(ctx: Ctx) -> None:
 
     off = blocked_features(ctx)
     bases = [("ks", off), ("somersault", ()), ("somersault_modified", ())]
-    pmap(ctx, baseline_unit, bases)
+    # other ODX model versions (as far as the parser loads the kitchen sink in them): unperturbed round trip only
+    versioned = []
+    for ver in MODEL_VERSIONS:
+        # (before ODX 2.2 odxtools cannot load PROTOCOL layers -- they need an ODX 2.2 COMPARAM-SPEC -- so the small database is used there)
+        name, o = ("ks@" + ver, off) if tuple(int(x) for x in ver.split(".")[:2]) >= (2, 2) else ("mini@" + ver, ())
+        try:
+            load_base(name, o)
+            versioned.append((name, o))
+        except Exception as e:
+            ctx.note(f"{name} is not loadable ({type(e).__name__}: {str(e)[:80]}): not a base")
+    ctx.extra["model_versions"] = {"tried": list(MODEL_VERSIONS), "bases": [b for b, _ in versioned]}
+    pmap(ctx, baseline_unit, bases + versioned)
     stages = dict(ctx.sets.pop("baseline_stage", set()))
     ctx.guard("document-fragment normalisation is a no-op on freshly loaded databases",
               all(n == 0 for _, n in ctx.sets.pop("normalize_changes_on_fresh_base", {("?", 1)})))
@@ -1464,6 +1567,8 @@ def replay(case: Any) -> List[Tuple[str, str]]:
     if mode == "feature":
         part = feature_unit(case["feature"])
         res = [(feature_key(f), d) for f, stage, d in part.sets.get("blocked_detail", set())]
+    elif mode == "baseline" and case.get("aux_read"):
+        res = aux_read_findings(case["base"], tuple(case["off"]), case["aux_read"])
     elif mode == "baseline":
         db = load_base(case["base"], tuple(case["off"]))
         res = judge(db, None, True).findings
